@@ -86,4 +86,25 @@ PROPS = {
         "trusted_base": S_TRUSTED,
         "assumptions": S_ASSUME,
     },
+    "C15": {
+        "level": "other",
+        "level_text": "bounded symbolic execution of the real reward code: for every feasible path of every event sequence inside the bound, the bounds 'never above the ideal' and 'short by less than (withdrawals+1) tokens' are decided by z3 for ALL stakes (resp. all time spans) with an allowance of 1e-6 token for fixed-point rounding; the withdrawal clauses (pays exactly what was shown, to the current withdraw address, mints nothing else, others unaffected) and split-independence are decided exactly. The thorough tier additionally poses the two bounds exactly as worded.",
+        "level_note": "trusts the integer semantics given to Uint128/Decimal/Timestamp (validated against the real cosmwasm-std), the placeholder codec, z3 (linear abstraction and real relaxation are used only for unsat answers). Quick keeps one symbolic factor per product: either symbolic stakes with one delegator per validator and boundary time spans, or stakes from a boundary table with symbolic time spans.",
+        "technique": "symbolic execution + SMT (z3: real relaxation of floor division / linear abstraction first, exact integers second) over the real code; counterexample replay on the unpatched build",
+        "explanation": S_EXPL,
+        "engines": [{"kind": "S"}],
+        "functions": [
+            "StakeKeeper::{calculate_rewards,update_rewards,get_rewards,get_rewards_internal,update_stake,execute} and Shares::share_of_rewards (src/staking.rs)",
+            "DistributionKeeper::{execute,remove_rewards,get_withdraw_address,set_withdraw_address} (src/staking.rs)",
+            "BankKeeper mint via Router::sudo (src/bank.rs, src/app.rs)",
+            "App::{execute,sudo,update_block} (src/app.rs)",
+        ],
+        "bounds": {
+            "quick": "apr 10 %, commissions {10 %, 0.333333333333333333}; (a) one delegator per validator, stakes symbolic in [0,2^32], time spans from {0,59,60,61,86400} s; (b) two delegators on one validator with stakes from {1,7,700800000}x{3,1000003}, time spans symbolic in [0,400 d]; after an initial time span every sequence of 2 events from {advance, withdraw (both delegators), delegate more, undelegate part, change withdraw address}; split of an interval into two block updates around a forced rewards update, 4x4 time spans, symbolic stakes",
+            "thorough": "as quick with 3 events, two symbolic delegators on one validator (1 event), and the bounds as worded (no rounding allowance) for a single symbolic delegator",
+        },
+        "outside": "slashes interleaved with reward accrual (the lower bound is void after a slash; C16 checks that a slash leaves accrued rewards unchanged), symbolic commission/apr, more than 2 delegators per validator",
+        "trusted_base": S_TRUSTED,
+        "assumptions": S_ASSUME + ["reward bounds are decided with an allowance of 1e-6 token in the quick tier (the wording without allowance is posed in the thorough tier only)"],
+    },
 }
